@@ -143,6 +143,7 @@ func c09Setup(c *ev.Ctx, fs *memfs.FS) (*sess, bool) {
 }
 
 func runC09(c *ev.Ctx) {
+	c09TargetNotADirectory(c)
 	r := c.Rand("c09")
 	strs := hostileStrings(r, c.Sz(400, 30000))
 	ps := c09Positions()
@@ -504,6 +505,52 @@ func c09Replaced(c *ev.Ctx) {
 				}
 				s.P.Close()
 			}
+		}
+	}
+}
+
+// c09TargetNotADirectory: the requests that name a SECOND directory - the
+// target of Trenameat and of Trename - through a fid that is bound to a file, a
+// symlink (even one that points to a directory) or a device. The new name
+// would reach the backend as a path component below a node it did not report
+// as a directory: the request fails before any backend call.
+func c09TargetNotADirectory(c *ev.Ctx) {
+	for i, tgt := range []string{"f", "l", "p", "c"} {
+		for _, how := range []string{"renameat", "rename"} {
+			if !c.Mine(i) {
+				continue
+			}
+			c.Begin(fmt.Sprintf("C09 %s into a fid on %q", how, tgt))
+			fs := fixture()
+			srv := p9.NewServer(fs)
+			s, r := newSess(srv, 1<<20, v7)
+			if !r.OK || s.attach(0, "").Errno() != 0 || s.walk(0, 5, tgt).Errno() != 0 || s.walk(0, 6, "a", "g").Errno() != 0 {
+				c.Inconclusive("C09 target-not-a-directory setup")
+				s.P.Close()
+				continue
+			}
+			mark := fs.NCalls()
+			var res rawpeer.Result
+			if how == "renameat" {
+				res = s.renameat(0, "d", 5, "moved")
+			} else {
+				res = s.rename(6, 5, "moved")
+			}
+			c.Case(fmt.Sprintf("target-not-a-directory:%s:%s", how, tgt), true)
+			if !res.OK {
+				hang(c, res.Out, res.Dump, "C09:target-not-a-directory-unanswered", tgt)
+				s.P.Close()
+				continue
+			}
+			for _, cl := range fs.Calls(mark) {
+				if cl.Method == "RenameAt" {
+					c.Violation("C09:backend-saw:RenameAt:target-not-a-directory:"+how, map[string]any{"target": tgt, "call": cl.String(), "reply": res.Msg.String()})
+				}
+			}
+			if res.Errno() == 0 {
+				c.Violation("C09:rename-into-a-non-directory-succeeded:"+how, map[string]any{"target": tgt})
+			}
+			s.P.Close()
 		}
 	}
 }
